@@ -44,16 +44,17 @@ type parkedG struct {
 // Engine is the cooperative scheduler: exactly one released goroutine runs
 // between two synctest.Wait() calls of the root goroutine.
 type Engine struct {
-	mu        sync.Mutex
-	active    atomic.Bool
-	parked    []*parkedG
+	mu     sync.Mutex
+	active atomic.Bool
+	parked []*parkedG
 	// free-running goroutines waiting for a lock (not part of the schedule)
 	freeWaiters []*parkedG
-	names     map[int64]string
-	autoRole  map[int64]string
-	nameCount map[string]int
-	noYield   map[int64]int
-	arrival   uint64
+	lockSeq     map[string]int // per goroutine name: number of hooked lock acquisitions so far
+	names       map[int64]string
+	autoRole    map[int64]string
+	nameCount   map[string]int
+	noYield     map[int64]int
+	arrival     uint64
 
 	sched   Sched
 	di      int
@@ -93,6 +94,7 @@ type Engine struct {
 func NewEngine(s Sched, groups []string) *Engine {
 	e := &Engine{
 		names:     map[int64]string{},
+		lockSeq:   map[string]int{},
 		autoRole:  map[int64]string{},
 		nameCount: map[string]int{},
 		noYield:   map[int64]int{},
@@ -339,12 +341,22 @@ func (e *Engine) waitLock(site string, try func() bool) {
 			e.mu.Unlock()
 			return
 		}
-		d, ok := e.nextDecision(100)
-		if !ok || d >= e.sched.LockYield || !e.active.Load() {
+		// The yes/no comes from a hash of (seed, goroutine name, its n-th lock acquisition),
+		// not from the shared decision stream: a goroutine woken by a channel operation
+		// runs concurrently with the one that woke it, and the order in which the two
+		// would draw from a shared stream is a real-time race.
+		name := e.names[gid]
+		e.lockSeq[name]++
+		h := uint64(14695981039346656037) ^ e.sched.TailSeed
+		for i := 0; i < len(name); i++ {
+			h = (h ^ uint64(name[i])) * 1099511628211
+		}
+		h = (h ^ uint64(e.lockSeq[name])) * 1099511628211
+		h ^= h >> 29
+		if int(h%100) >= e.sched.LockYield || !e.active.Load() {
 			e.mu.Unlock()
 			return
 		}
-		e.Decisions++
 		e.mu.Unlock()
 		// fall through: park like a waiter; it is released only at a moment when the
 		// lock is free, and nobody else runs between its release and its Lock call
